@@ -93,8 +93,8 @@ def parse_embedded_scalar(scalar, version=LATEST_VER):
         if version < VER_3_0:
             raise ValueError('Lists are not supported in Haystack version %s' \
                              % version)
-        return list(map(functools.partial(parse_scalar, version=version),
-                        scalar))
+        return list(map(functools.partial(parse_embedded_scalar,
+                                          version=version), scalar))
     elif isinstance(scalar, dict):
         # We support this only in version 3.0 and up.
         if version < VER_3_0:
@@ -104,7 +104,7 @@ def parse_embedded_scalar(scalar, version=LATEST_VER):
                 or {"meta", "cols", "rows"} <= scalar.keys():  # Check if grid in grid
             return parse_grid(scalar)
         else:
-            return {k: parse_scalar(v, version=version) for (k, v) in scalar.items()}
+            return {k: parse_embedded_scalar(v, version=version) for (k, v) in scalar.items()}
     elif scalar == MARKER_STR:
         return MARKER
     elif scalar == NA_STR:
